@@ -28,7 +28,7 @@ LD = np.longdouble
 
 
 def cases(seed, tier):
-    n = 420 if tier == "quick" else 6000
+    n = 560 if tier == "quick" else 8000
     rng = np.random.default_rng([seed, 13])
     fams = ["ids", "cover", "bincount", "cover", "bincount", "bincount-edges", "tangent"]
     for i in range(n):
@@ -133,7 +133,7 @@ def special_positions(rng, n):
 
 def run_ids(case, rng):
     from esutil import htm
-    n = int(rng.choice([1, 5, 60]))
+    n = int(rng.choice([1, 5, 25, 40, 60]))
     ra, dec = special_positions(rng, n)
     wit = {"n": n}
     prev = None
